@@ -251,7 +251,18 @@ func main() {
 		in := fs.String("in", "", "scenarios")
 		out := fs.String("out", "", "trace file")
 		fs.Parse(args)
-		if err := muxdrv.RunTable(*in, *out); err != nil {
+		n, err := isolate.RunWith("muxtable-child", *in, *out, nil, 5*time.Second, map[string]any{"ops": []int{}})
+		if err != nil {
+			fail(err)
+		}
+		fmt.Printf("{\"events\":%d}\n", n)
+	case "muxtable-child":
+		fs := flag.NewFlagSet(mod, flag.ExitOnError)
+		in := fs.String("in", "", "scenarios")
+		out := fs.String("out", "", "trace file")
+		skip := fs.Int("skip", 0, "scenarios to skip")
+		fs.Parse(args)
+		if err := muxdrv.RunTable(*in, *out, *skip); err != nil {
 			fail(err)
 		}
 	case "mux-gen":
